@@ -152,6 +152,13 @@ class NativeCase:
             self.stubs[ident] = stub
             self.described[fname] = nm
             return stub
+        if isinstance(fv, VParam) and fv.const is not None and isinstance(fv.const, VInt) and fv.const.t.op == 'int' and fv.callable_t.op == 'bool':
+            # a parameter fixed by the variant under verification
+            v = fv.const.t.args[0]
+            env[self.name_of(fv.ident)] = len(self.params) + 500
+            self.params[env[self.name_of(fv.ident)]] = v
+            self.described[fname] = v
+            return v
         if isinstance(fv, VParam):
             pk = fv.pkind
             if pk in ('int', 'modulus'):
@@ -492,7 +499,7 @@ class HeapStub(dict):
 HEAP = HeapStub()
 
 
-def search(contract, src, C, rng, budget, model='bytesio', seconds=25):
+def search(contract, src, C, rng, budget, model='bytesio', seconds=25, prefer=None):
     """-> (description of a violation | None, stats)"""
     import time
     stats = {'ok': 0, 'resample': 0, 'unsuitable': 0, 'unsupported': 0, 'timeout': 0}
@@ -502,6 +509,8 @@ def search(contract, src, C, rng, budget, model='bytesio', seconds=25):
         if time.time() > deadline or stats['timeout'] >= 5:
             break
         variant = rng.choice(variants)
+        if prefer is not None and rng.random() < 0.7:
+            variant = prefer
         nc = NativeCase(contract, src, C, rng, model, variant)
         try:
             verdict, detail = nc.run()
